@@ -52,6 +52,7 @@ class Engine:
         self.timeout = timeout
         self.enum_cap = enum_cap
         self.solver_timeout_ms = solver_timeout_ms
+        self.fork_limit = None
         self.stats = {'paths': 0, 'decisions': 0, 'solver_queries': 0,
                       'solver_time': 0.0, 'forks': 0}
 
@@ -126,7 +127,8 @@ class Engine:
             can_f = self._check(z3.Not(cond))
             if can_t and can_f:
                 self.stats['forks'] += 1
-                self.worklist.append(self.decisions + [('b', False)])
+                if self.fork_limit is None or len(self.decisions) < self.fork_limit:
+                    self.worklist.append(self.decisions + [('b', False)])
                 d = True
             elif can_t:
                 d = True
@@ -174,11 +176,28 @@ class Engine:
                 return v
 
     # -- driver --------------------------------------------------------------
-    def explore(self, fn):
-        """Run fn() on every feasible path.  Returns list of Path."""
+    def frontier(self, fn, depth):
+        """Decision prefixes of length <= depth that partition the path space:
+        exploring each with explore(fn, prefixes=[p]) covers every path once."""
+        self.fork_limit = depth
+        try:
+            paths = self.explore(fn)
+        finally:
+            self.fork_limit = None
+        out, seen = [], set()
+        for p in paths:
+            pre = tuple(p.decisions[:depth])
+            if pre not in seen:
+                seen.add(pre)
+                out.append(list(pre))
+        return out
+
+    def explore(self, fn, prefixes=None):
+        """Run fn() on every feasible path (extending the given decision
+        prefixes, if any).  Returns list of Path."""
         global _ENGINE
         t_start = time.time()
-        self.worklist = [[]]
+        self.worklist = [list(p) for p in prefixes] if prefixes is not None else [[]]
         paths = []
         prev = _ENGINE
         _ENGINE = self
